@@ -702,6 +702,25 @@ pub fn cmd_replay(pos: &[String], opts: &BTreeMap<String, String>) -> i32 {
             return 2;
         }
     };
+    // a replay file of the release-like leg (`rel-...`) is replayed by the release-like binary
+    let base = std::path::Path::new(path).file_name().map(|f| f.to_string_lossy().to_string()).unwrap_or_default();
+    if base.starts_with("rel-") && !release_build() {
+        if let Ok(exe) = std::env::current_exe() {
+            if let Some(rel) = exe.parent().and_then(|p| p.parent()).map(|t| t.join("simrel").join("pocket-sim")) {
+                if rel.exists() {
+                    let mut cmd = Command::new(rel);
+                    let _ = cmd.arg("replay").arg(path);
+                    if opts.contains_key("verbose") {
+                        let _ = cmd.arg("--verbose");
+                    }
+                    return match cmd.status() {
+                        Ok(st) => st.code().unwrap_or(3),
+                        Err(_) => 2,
+                    };
+                }
+            }
+        }
+    }
     let text = match std::fs::read_to_string(path) {
         Ok(t) => t,
         Err(e) => {
